@@ -56,7 +56,7 @@ CLAIMED["C18"] = ("proof", "Stateful executable Coq model of Data.get_scores (Mo
     "witness (reproduced on the implementation, repaired by fix c0f782e). TIE: the model is evaluated by vm_compute and compared with ONE "
     "real verif.data.Data object over the same histories (exhaustive to length 2 / 3 over a 12-request menu per dataset plus random "
     "histories to length 10; arrays at return time AND the same objects at the end of the history); falsifier: every response vs a fresh "
-    "Data, earlier arrays / inputs unchanged (obs, fcst, pit, ensemble, stored threshold and quantile arrays, other fields), repeatability; fields DERIVED from the ensemble (quantile levels, threshold probabilities) mixed with member requests are checked on the implementation only (not in the model).",
+    "Data, earlier arrays / inputs unchanged (obs, fcst, pit, ensemble, stored threshold and quantile arrays, other fields), repeatability; fields DERIVED from the ensemble (quantile levels, threshold probabilities) mixed with member requests are checked on the implementation only (not in the model), also under a climatology; the first slices of year / month / week / day axes whose values coincide at calendar boundaries are asked in every order; inputs whose dimensions already are the dataset's (every cut is the identity) are generated.",
     "7 C18", "Coq refinement proof of a hand-written state-machine model (invariant induction over histories) + exhaustive-history correspondence check")
 TRANS_NOTE = ("Python-ast -> Gallina translator regenerates the definitions from /repo on every run (fail-closed); theorems over the "
     "extended reals XR (NaN | -inf | +inf | finite real, IEEE special-value rules, exact finite arithmetic); the same generated text is run on "
@@ -75,7 +75,7 @@ CLAIMED["C15"] = ("proof", TRANS_NOTE + "C15: every generated aggregator is its 
     "abschange, variance, std, iqr, quantile with level in [0,1]); -T: hand model Model/Window.v of preaggregate_leadtime/_time with the "
     "theorem that for every strictly increasing grid the aggregated positions are exactly the trailing window (l-h, l] (irregular spacing, "
     "any window length), same function for obs/fcst/members; REFUTED for unsorted grids (known finding); model tied over Q for 12 aggregators; "
-    "aggregation along every axis of arrays up to 4-D and ensemble pre-aggregation checked on the implementation. Falsifier enumerates every aggregator along every axis of 1-4-D arrays; every aggregator is also compared with an independent statistic on vectors incl. equal non-representable values and small spreads on large offsets; the ensemble pre-aggregation runs on TWO inputs whose files share a base name; a NaN quantile level is rejected (theorem on the regenerated guard).", "7 C15",
+    "aggregation along every axis of arrays up to 4-D and ensemble pre-aggregation checked on the implementation. Falsifier enumerates every aggregator along every axis of 1-4-D arrays; every aggregator is also compared with an independent statistic on vectors incl. equal non-representable values and small spreads on large offsets; the ensemble pre-aggregation runs on TWO inputs whose files share a base name; a NaN quantile level is rejected (theorem on the regenerated guard); two inputs on different lead-time grids are windowed each on its own grid, whichever is asked first; the window tie compares to 1e-9 (float32 storage of the pinned code fixed).", "7 C15",
     "Coq proof over translated source + hand model with correspondence check")
 CLAIMED["C13"] = ("proof", "Option tables GENERATED from driver.run's AST on every run (boolean chain, valued chain with parser kind, Data(...) "
     "keywords, pl.<attr> block, validations); theorems: every documented data-selection flag reaches its documented constructor "
@@ -127,7 +127,7 @@ CLAIMED["C19"] = ("proof", "PARTIAL. GENERATED from /repo on every run (Gen/Gen_
     "class. Whether numpy/matplotlib raise inside a permitted combination is runtime behaviour no Coq model can exhibit: the check "
     "ENUMERATES verif.driver.run over names x 20 -x values x 8 output types x 7 dataset shapes (+ -r/-q/-b/-agg variants) -- a stratified "
     "sample in quick, the full product in thorough or whenever a proof/tie is broken -- and reports every unhandled exception with its argv; "
-    "the model's keep/drop decision is compared with the driver's warnings for every (name, axis) pair. Also GENERATED: which of the six core methods every Output class defines and which one each -type finally calls; theorems: every documented type is routed, class Standard defines all six, every diagram can be plotted; the predicted refusal (explanatory exit) of unsupported types is compared with the driver for every (name, type) pair. Dataset shapes now include inputs with different columns; conditional axes are run with every aggregator variant. Every name is also run with all 8 bin types x (one, three thresholds), with every aggregator name the library knows (incl. the numbers 0, 0.5, 1), with ONE and with THREE input files for every output type, and every (name, axis) on datasets whose missing slice is in the middle / at the start and with a single threshold.",
+    "the model's keep/drop decision is compared with the driver's warnings for every (name, axis) pair. Also GENERATED: which of the six core methods every Output class defines and which one each -type finally calls; theorems: every documented type is routed, class Standard defines all six, every diagram can be plotted; the predicted refusal (explanatory exit) of unsupported types is compared with the driver for every (name, type) pair. Dataset shapes now include inputs with different columns; conditional axes are run with every aggregator variant. Every name is also run with all 8 bin types x (one, three thresholds), with every aggregator name the library knows (incl. the numbers 0, 0.5, 1), with ONE and with THREE input files for every output type, and every (name, axis) on datasets whose missing slice is in the middle / at the start and with a single threshold; further shapes: a variable with a discrete mass and a file without observations, longitudes in the 0..360 convention spanning more than 180 degrees (all map types), a station with constant observations; variants with a single bin edge, descending edges and selections (-d / -tod) that leave no time.",
     "7 C19", "Coq proof over translated gating logic and capability tables + exhaustive enumeration of the real driver (partial)")
 CLAIMED["C17"] = ("proof", "PARTIAL. The chain command line -> driver variable -> Output attribute -> attribute read by verif/output.py is "
     "proved over the option tables GENERATED from /repo on every run (Gen/Gen_cli.v: flag chains, the pl.<attr> = <var> block, every "
